@@ -138,7 +138,9 @@ def run_one(job):
         if b.returncode != 0:
             res["status"] = "does-not-build"
             return res
-        t = subprocess.run(["make", "test"], cwd=_scratch, capture_output=True, text=True, timeout=1800)
+        # a mutant that makes a test spin for ever fails the suite: bound the run (the suite takes about a minute)
+        t = subprocess.run(["timeout", "-k", "5", "420", "make", "test"], cwd=_scratch, capture_output=True, text=True, timeout=1800)
+        subprocess.run("pkill -f %s/tests 2>/dev/null; true" % _scratch, shell=True)
         if t.returncode != 0:
             res["status"] = "suite-fails" + ("-and-broken" if 2 in verdicts.values() else "")
             return res
